@@ -316,6 +316,11 @@ class Encoder:
                 for kw in d.keywords:
                     if kw.arg == "default_opset" and isinstance(kw.value, ast.Name) and kw.value.id in self.op_aliases:
                         dver = self.op_aliases[kw.value.id]
+        if dver < 15 and any(isinstance(n, ast.Constant) and isinstance(n.value, (int, float)) and not isinstance(n.value, bool)
+                             for st in fn.body for n in ast.walk(st)):
+            # 7b0eb49 (C01-D47): below opset 15 a literal beside a tensor is promoted with Cast(to=<static dtype of the
+            # sibling>) instead of CastLike; the model erases type annotations, so such a function is outside it
+            raise Unmodelled("literal promotion under default_opset < 15 (Cast to a static dtype)")
         return sx("func", fn.name, sx("params", *params), sx("ret", ret), sx("opset", str(dver)),
                   sx("body", *self.block(fn.body)))
 
@@ -375,8 +380,8 @@ def encode_function(src: str, functions: dict | None = None, env=None) -> str:
     (name, kind, value) the function may read from its surroundings; the Lean side resolves the lookup order."""
     tree = ast.parse(src)
     fn = next(n for n in tree.body if isinstance(n, ast.FunctionDef))
-    if env is not None:
-        fold_constant_ifs(fn, env)
+    # static `if`s on outer-scope names are folded by the Lean model (`foldBlock` in OV/Model/C01Env.lean);
+    # `fold_constant_ifs` below is the same rule on the source, kept for replaying old cases by hand
     f = Encoder(functions=functions).function(fn)
     if env is None:
         return f
